@@ -1,0 +1,24 @@
+//! Verification hooks.
+//!
+//! Only compiled with `--cfg googlefonts_fontations_verif`; not part of the
+//! public API. An external harness can install a function that is called at
+//! the synchronization points of the auto-hinter's lazily computed style
+//! metrics (before taking the read lock, after releasing it, and before
+//! taking the write lock), which lets a controlled scheduler interleave
+//! threads exactly there.
+
+use std::sync::OnceLock;
+
+static SCHED_HOOK: OnceLock<fn(&'static str)> = OnceLock::new();
+
+/// Install the hook. Can only be set once per process.
+pub fn install_sched_hook(f: fn(&'static str)) -> bool {
+    SCHED_HOOK.set(f).is_ok()
+}
+
+#[inline]
+pub(crate) fn sched_point(site: &'static str) {
+    if let Some(f) = SCHED_HOOK.get() {
+        f(site)
+    }
+}
